@@ -45,6 +45,13 @@ def o_basis_multilattice(rng, n=4, order=4, dets=(4, 6, 8, 9), which=("perm",)):
     return O.run_oracle("basis_invariants", gen(), which=which)
 
 
+def o_basis_o1(rng, n=8, max_N=12):
+    def gen():
+        for k in range(n):
+            yield {"crystal": crystal(rng, max_N=max_N), "orders": [1]}
+    return O.run_oracle("basis_o1", gen())
+
+
 def o_completeness(rng, n=6, max_N=(4, 3, 2), with_cutoff=False, orders=(2, 3, 4), hooks=None):
     def gen():
         for k in range(n):
@@ -259,7 +266,8 @@ PROPS = {
         "lean": "SymfcModel.Props.C02", "gen": ["SumRule", "PermTables"],
         "corr": [{"fn": S.corr_coset, "quick": {"n_cases": 36}, "thorough": {"n_cases": 300}},
                  {"fn": C.corr_cell_index, "quick": {"n_cases": 15}, "thorough": {"n_cases": 90}}],
-        "oracle": [{"name": "basis_spg_explicit_ops", "fn": o_basis,
+        "oracle": [{"name": "first_order_basis", "fn": o_basis_o1, "quick": {"n": 8}, "thorough": {"n": 40}, "search": {"n": 24}},
+                   {"name": "basis_spg_explicit_ops", "fn": o_basis,
                     "quick": {"n": 24, "which": ("spg",), "explicit_ops": 1.0, "min_nlp": 2, "max_N": (8, 6, 4),
                               "orders": (2, 2, 3, 2, 3, 4)},
                     "thorough": {"n": 48, "which": ("spg",), "explicit_ops": 1.0, "min_nlp": 2, "max_N": (10, 6, 4)},
@@ -273,7 +281,8 @@ PROPS = {
         "lean": "SymfcModel.Props.C03", "gen": ["SumRule"],
         "corr": [{"fn": S.corr_sum_rule, "quick": {"n_cases": 36, "sizes": ((6, 6), (6, 6), (3, 3))},
                   "thorough": {"n_cases": 240, "sizes": ((8, 8), (6, 6), (4, 4))}}],
-        "oracle": [{"name": "basis_sum", "fn": o_basis, "quick": {"n": 12, "which": ("sum",)},
+        "oracle": [{"name": "first_order_basis", "fn": o_basis_o1, "quick": {"n": 8}, "thorough": {"n": 40}, "search": {"n": 24}},
+                   {"name": "basis_sum", "fn": o_basis, "quick": {"n": 12, "which": ("sum",)},
                     "thorough": {"n": 48, "which": ("sum",), "max_N": (10, 6, 4)}, "search": {"n": 30, "which": ("sum",)}},
                    {"name": "basis_sum_large_path", "fn": o_basis,
                     "quick": {"n": 9, "which": ("sum",), "min_nlp": 2, "hooks": {"eig_threshold": 5, "eig_target": 4, "sumrule_nbatch": 64}},
@@ -286,7 +295,8 @@ PROPS = {
         "lean": "SymfcModel.Props.C04", "gen": ["PermTables", "Cutoff"],
         "corr": [{"fn": C.corr_perm_stage, "quick": {"n_cases": 36}, "thorough": {"n_cases": 300}},
                  {"fn": C.corr_combinations, "quick": {"n_cases": 18}, "thorough": {"n_cases": 120}}],
-        "oracle": [{"name": "completeness", "fn": o_completeness, "quick": {"n": 9, "with_cutoff": True},
+        "oracle": [{"name": "first_order_basis", "fn": o_basis_o1, "quick": {"n": 8}, "thorough": {"n": 40}, "search": {"n": 24}},
+                   {"name": "completeness", "fn": o_completeness, "quick": {"n": 9, "with_cutoff": True},
                     "thorough": {"n": 36, "with_cutoff": True}, "search": {"n": 24, "with_cutoff": True}},
                    {"name": "completeness_large_eigen_path", "fn": o_completeness,
                     "quick": {"n": 6, "hooks": {"eig_threshold": 5}}, "thorough": {"n": 24, "hooks": {"eig_threshold": 5}},
@@ -334,7 +344,8 @@ PROPS = {
         "lean": "SymfcModel.Props.C09", "gen": ["Eig"],
         "corr": [{"fn": corr_eig.corr_eigsh_projector, "quick": {"n_cases": 30}, "thorough": {"n_cases": 300}},
                  {"fn": corr_eig.corr_sumrule_plan, "quick": {"n_cases": 20}, "thorough": {"n_cases": 200}}],
-        "oracle": [{"name": "basis_ortho", "fn": o_basis, "quick": {"n": 12, "which": ("ortho",)},
+        "oracle": [{"name": "first_order_basis", "fn": o_basis_o1, "quick": {"n": 8}, "thorough": {"n": 40}, "search": {"n": 24}},
+                   {"name": "basis_ortho", "fn": o_basis, "quick": {"n": 12, "which": ("ortho",)},
                     "thorough": {"n": 36, "which": ("ortho",)}, "search": {"n": 24, "which": ("ortho",)}},
                    {"name": "basis_ortho_large_path", "fn": o_basis,
                     "quick": {"n": 9, "which": ("ortho",), "hooks": {"eig_threshold": 5, "eig_target": 4}},
